@@ -20,6 +20,10 @@ use std::sync::Mutex;
 struct CachedInfoset {
     reg: RegretInfoset,
     cached: usize,
+    #[cfg(cfr_verif)]
+    vid: usize,
+    #[cfg(cfr_verif)]
+    vpass: u64,
 }
 
 impl CachedInfoset {
@@ -28,13 +32,24 @@ impl CachedInfoset {
         CachedInfoset {
             reg: RegretInfoset::new(num_actions),
             cached: 0,
+            #[cfg(cfr_verif)]
+            vid: crate::verif::next_player_id(),
+            #[cfg(cfr_verif)]
+            vpass: 0,
         }
     }
 
     /// Sample an action from the current strategy, caches between resets
     fn sample(&mut self) -> usize {
         if self.cached == 0 {
+            #[cfg(cfr_verif)]
+            if let Some(res) = crate::verif::player_draw(self.vid, self.vpass, &self.reg.strat) {
+                self.cached = res + 1;
+                return res;
+            }
             let res = Multinomial::new(&self.reg.strat).sample(&mut thread_rng());
+            #[cfg(cfr_verif)]
+            crate::verif::observe_player(self.vid, self.vpass, &self.reg.strat, res);
             self.cached = res + 1;
             res
         } else {
@@ -101,6 +116,15 @@ impl<T: ActiveInfo> ActiveRecurse for Mutex<T> {
         // this is the unique visit to this infoset this iteration, however in practice switching
         // to unsafe rust didn't actually improve performance, likely because the locking isn't a
         // huge bottleneck
+        #[cfg(cfr_verif)]
+        crate::verif::lock(
+            match player.num {
+                PlayerNum::One => 0,
+                PlayerNum::Two => 1,
+            },
+            player.infoset,
+            self.try_lock().is_ok(),
+        );
         self.try_lock().unwrap().recurse(player, rec)
     }
 }
@@ -155,6 +179,10 @@ impl ActiveInfo for CachedInfoset {
     }
 
     fn advance<const FIRST: bool>(&mut self, it: u64, params: &RegretParams) -> f64 {
+        #[cfg(cfr_verif)]
+        {
+            self.vpass += 1;
+        }
         self.cached = 0;
         params.regret_match(&mut *self.reg.cum_regret, &mut self.reg.strat);
         params.discount_cum_regret(it, &mut *self.reg.cum_regret);
@@ -215,8 +243,12 @@ fn recurse_regret<const FIRST: bool>(
     cached: &impl CachedPayoff,
 ) -> f64 {
     if let Some(pay) = cached.get_payoff(node) {
+        #[cfg(cfr_verif)]
+        crate::verif::visit(node, true);
         pay
     } else {
+        #[cfg(cfr_verif)]
+        crate::verif::visit(node, false);
         match node {
             Node::Terminal(payoff) => {
                 if FIRST {
@@ -319,9 +351,13 @@ fn single_player_iter<'a, const FIRST: bool>(
         &mut work.queue,
         &mut work.work,
     );
+    #[cfg(cfr_verif)]
+    crate::verif::frontier(work.queue.iter().copied(), work.work.iter().copied());
     // send threshold to threads for computation
     work.payoffs
         .par_extend(work.queue.par_drain(..).map(|node| {
+            #[cfg(cfr_verif)]
+            crate::verif::task(node);
             let payoff = recurse_regret::<FIRST>(
                 node,
                 chance_infosets,
@@ -331,6 +367,8 @@ fn single_player_iter<'a, const FIRST: bool>(
             );
             (ByAddress(node), payoff)
         }));
+    #[cfg(cfr_verif)]
+    crate::verif::tasks_done();
     // now actually recurse, having cached results from threaded computation
     recurse_regret::<FIRST>(
         root,
@@ -340,6 +378,8 @@ fn single_player_iter<'a, const FIRST: bool>(
         &work.payoffs,
     );
 
+    #[cfg(cfr_verif)]
+    crate::verif::pass_end(it, if FIRST { 0 } else { 1 });
     // update all infosets
     work.payoffs.clear();
     chance_infosets
@@ -383,8 +423,17 @@ pub(crate) fn solve_external_multi(
         // initialize workspace
         let mut work = Workspace::with_capacity(target.get());
 
+        #[cfg(cfr_verif)]
+        verif_inject(
+            [&mut player_one, &mut player_two],
+            |info: &mut Mutex<CachedInfoset>| info.get_mut().unwrap(),
+        );
         // loop through iters, these will send data to to the threads
         for it in 1..=max_iter {
+            #[cfg(cfr_verif)]
+            if it < crate::verif::first_it() {
+                continue;
+            }
             reg_one = single_player_iter::<true>(
                 root,
                 &mut chance_infosets,
@@ -403,12 +452,19 @@ pub(crate) fn solve_external_multi(
                 it,
                 params,
             );
+            #[cfg(cfr_verif)]
+            crate::verif::iter_end(it, [reg_one, reg_two]);
             // check to terminate
             if f64::max(reg_one, reg_two) < max_reg {
                 break;
             }
         }
     });
+    #[cfg(cfr_verif)]
+    verif_extract(
+        [&mut player_one, &mut player_two],
+        |info: &mut Mutex<CachedInfoset>| info.get_mut().unwrap(),
+    );
 
     let strats = [player_one, player_two].map(|player| {
         Vec::from(player)
@@ -438,9 +494,20 @@ pub(crate) fn solve_external_single(
             .collect::<Box<[_]>>()
     });
     let [mut reg_one, mut reg_two] = [f64::INFINITY; 2];
+    #[cfg(cfr_verif)]
+    verif_inject(
+        [&mut player_one, &mut player_two],
+        |info: &mut RefCell<CachedInfoset>| info.get_mut(),
+    );
     for it in 1..=max_iter {
+        #[cfg(cfr_verif)]
+        if it < crate::verif::first_it() {
+            continue;
+        }
         // player one
         recurse_regret::<true>(start, &chance_infosets, &player_one, &player_two, &());
+        #[cfg(cfr_verif)]
+        crate::verif::pass_end(it, 0);
         chance_infosets
             .iter_mut()
             .for_each(|info| info.get_mut().advance());
@@ -450,6 +517,8 @@ pub(crate) fn solve_external_single(
             .sum();
         // player two
         recurse_regret::<false>(start, &chance_infosets, &player_two, &player_one, &());
+        #[cfg(cfr_verif)]
+        crate::verif::pass_end(it, 1);
         chance_infosets
             .iter_mut()
             .for_each(|info| info.get_mut().advance());
@@ -457,11 +526,18 @@ pub(crate) fn solve_external_single(
             .iter_mut()
             .map(|info| info.get_mut().advance::<false>(it, params))
             .sum();
+        #[cfg(cfr_verif)]
+        crate::verif::iter_end(it, [reg_one, reg_two]);
         // check to terminate
         if f64::max(reg_one, reg_two) < max_reg {
             break;
         }
     }
+    #[cfg(cfr_verif)]
+    verif_extract(
+        [&mut player_one, &mut player_two],
+        |info: &mut RefCell<CachedInfoset>| info.get_mut(),
+    );
     let strats = [player_one, player_two].map(|player| {
         Vec::from(player)
             .into_iter()
@@ -469,6 +545,39 @@ pub(crate) fn solve_external_single(
             .collect()
     });
     ([reg_one, reg_two], strats)
+}
+
+#[cfg(cfr_verif)]
+fn verif_inject<T>(players: [&mut Box<[T]>; 2], get: impl Fn(&mut T) -> &mut CachedInfoset) {
+    if let Some(state) = crate::verif::injected() {
+        for (infos, vals) in players.into_iter().zip(state.iter()) {
+            for (info, val) in infos.iter_mut().zip(vals.iter()) {
+                let info = get(info);
+                info.reg.cum_regret.copy_from_slice(&val.cum_regret);
+                info.reg.cum_strat.copy_from_slice(&val.cum_strat);
+                info.reg.strat.copy_from_slice(&val.strat);
+            }
+        }
+    }
+}
+
+#[cfg(cfr_verif)]
+fn verif_extract<T>(players: [&mut Box<[T]>; 2], get: impl Fn(&mut T) -> &mut CachedInfoset) {
+    let [one, two] = players;
+    let read = |infos: &mut Box<[T]>| {
+        infos
+            .iter_mut()
+            .map(|info| {
+                let info = get(info);
+                crate::verif::InfoState {
+                    cum_regret: info.reg.cum_regret.to_vec(),
+                    cum_strat: info.reg.cum_strat.to_vec(),
+                    strat: info.reg.strat.to_vec(),
+                }
+            })
+            .collect()
+    };
+    crate::verif::extracted([read(one), read(two)]);
 }
 
 #[cfg(test)]
